@@ -403,6 +403,48 @@ impl<E: Elem + Clone + Default + std::fmt::Debug> Pool<E> {
                             self.give(e);
                         }
                     }
+                    _ if rng.chance(1, 3) => {
+                        // zip with an array of another element type: plain (no drop glue) or a
+                        // different droppable one, on either side, so that exactly one operand
+                        // of the zip carries tracked elements
+                        let Some((a, s)) = self.take_arr(rng) else { return Ok(false) };
+                        let form = rng.below(7);
+                        let replace = rng.chance(1, 2);
+                        let mut seen = Vec::new();
+                        let mut idx = Vec::new();
+                        let mut made = Vec::new();
+                        let mut f = |e: E, i: u64| {
+                            seen.push(e.key());
+                            idx.push(i);
+                            if replace {
+                                drop(e);
+                                let x = E::fresh();
+                                made.push(x.key());
+                                x
+                            } else {
+                                made.push(e.key());
+                                e
+                            }
+                        };
+                        let out = match form {
+                            0 => arr_zipx_plain_right_oo(a, &mut f),
+                            1 => arr_zipx_plain_left_oo(a, &mut f),
+                            2 => arr_zipx_plain_right_or(a, &mut f),
+                            3 => arr_zipx_plain_left_ro(a, &mut f),
+                            4 => arr_zipx_string_right_oo(a, &mut f),
+                            5 => arr_zipx_string_left_oo(a, &mut f),
+                            _ => arr_zipx_plain_right_bb(a, &mut f),
+                        };
+                        self.note("zip.mixed", format!("(n={},form={form},replace={replace})", s.len()));
+                        eqk::<E>("mixed zip visit order", &seen, &s)?;
+                        if form < 4 || form == 6 {
+                            let want: Vec<u64> = (0..s.len() as u64).collect();
+                            if idx != want {
+                                return Err(format!("ModelMismatch: mixed zip paired element i with {idx:?}"));
+                            }
+                        }
+                        self.arrs.push((out, made));
+                    }
                     _ => {
                         // zip: need two arrays of equal length
                         if self.arrs.len() < 2 {
